@@ -68,7 +68,12 @@ int main(int argc, char **argv)
 			uint8_t rev[4096]; size_t rl = 0;
 			if (rc == 1 && !strcmp(kind, "crl")) {
 				char rb[2048]; snprintf(rb, sizeof rb, "%s", kv_str(&kv, "revoked", "")); char *sp = NULL; uint8_t *rp = rev;
-				for (char *t = strtok_r(rb, ",", &sp); t && rc == 1; t = strtok_r(NULL, ",", &sp)) { uint8_t s[64]; if (!strcmp(t, "-")) continue; int n = vh_unhex(t, s, 64); rc = x509_revoked_cert_to_der(s, (size_t)n, nb - 3600, NULL, 0, &rp, &rl); }
+				for (char *t = strtok_r(rb, ",", &sp); t && rc == 1; t = strtok_r(NULL, ",", &sp)) { uint8_t s[64]; if (!strcmp(t, "-")) continue;
+						// <serial>[:<reason>[:<invalidity date, days>]]  (reason -1 / date -1: extension absent)
+						long reason = -1, inv = -1; char *c1 = strchr(t, ':'); if (c1) { *c1++ = 0; reason = atol(c1); char *c2 = strchr(c1, ':'); if (c2) inv = atol(c2 + 1); }
+						int n = vh_unhex(t, s, 64);
+						if (reason == -1 && inv == -1) rc = x509_revoked_cert_to_der(s, (size_t)n, nb - 3600, NULL, 0, &rp, &rl);
+						else rc = x509_revoked_cert_to_der_ex(s, (size_t)n, nb - 3600, (int)reason, inv < 0 ? (time_t)-1 : (time_t)inv * 86400, NULL, 0, &rp, &rl); }
 			}
 			if (rc == 1) {
 				if (!strcmp(kind, "cert")) rc = x509_cert_sign_to_der(X509_version_v3, serial, sl, OID_sm2sign_with_sm3, iss, il, nb, na, sub, sbl, &ksub, NULL, 0, NULL, 0, el ? ex : NULL, el, &kiss, (char *)sid, sidl, &p, &ol);
@@ -96,7 +101,9 @@ int main(int argc, char **argv)
 			vt_begin("Verify"); vt_int("id", kv_int(&kv, "id", 0)); vt_int("rc", rc); vt_end();
 		} else if (!strcmp(kind, "lookup")) {
 			time_t rd = 0; const uint8_t *ee; size_t eel; int rc = x509_crl_find_revoked_cert_by_serial_number(der, dl, serial, sl, &rd, &ee, &eel);
-			vt_begin("Lookup"); vt_int("id", kv_int(&kv, "id", 0)); vt_int("rc", rc); vt_end();
+			int reason = -1; time_t inv = -1; const uint8_t *ci = NULL; size_t cil = 0; int xrc = 0;
+			if (rc == 1 && ee && eel) xrc = x509_crl_entry_exts_get(ee, eel, &reason, &inv, &ci, &cil);
+			vt_begin("Lookup"); vt_int("id", kv_int(&kv, "id", 0)); vt_int("rc", rc); vt_int("rd", rc == 1 ? (long)rd : 0); vt_int("xrc", xrc); vt_int("reason", reason); vt_int("inv", inv == (time_t)-1 ? -1 : (long)(inv / 86400)); vt_end();
 		}
 		vt_begin("Reset"); vt_end();
 	}
